@@ -55,14 +55,17 @@ def genData (size salt mode : Nat) : Bytes :=
 
 def splitOnComma (s : String) : List String := if s == "-" then [] else s.splitOn ","
 
-/-- per-shard deltas such that no combination of them (same column, any subset of shards, any d ≤ 4,
-p ≤ 3) is a code word of `rsCode` (searched by brute force) -/
-def deltas : List Nat := [195, 116, 121, 167, 98, 54, 25]
+/-- per-shard deltas such that, for every d ≤ 4, p ≤ 3, every set of present shards and every non-empty
+subset of corrupted ones among them, the error pattern is not a (punctured) code word of `rsCode`
+(found by brute force): corrupted shards are never accidentally consistent. The Go side checks the same
+of its own flips with the real encoder (`ecx.accidental`). -/
+def deltas : List Nat := [7, 46, 84, 45, 35, 131, 131]
 
 /-- `ecx.ApplyDamage` on a model file -/
-def applyDamage (i : Nat) (f : Option Bytes) (tok : String) : Option (Option Bytes) :=
+def applyDamage (alt orig : Nat → Bytes) (i : Nat) (f : Option Bytes) (tok : String) : Option (Option Bytes) :=
   if tok == "g" then some f
   else if tok == "m" then some none
+  else if tok == "o" then some (f.map fun b => if b.length ≥ metaSize then b.take metaSize ++ alt i else b)
   else match f with
     | none => some none
     | some b =>
@@ -74,7 +77,7 @@ def applyDamage (i : Nat) (f : Option Bytes) (tok : String) : Option (Option Byt
         | 'c' =>
           if b.length > metaSize then
             let k := metaSize + n % (b.length - metaSize)
-            some (some (b.set k (b.getD k 0 + deltas.getD i 1)))
+            some (some (b.set k ((orig i).getD (k - metaSize) 0 + deltas.getD i 1)))
           else some (some b)
         | 'k' =>
           if b.length ≥ metaSize then
@@ -84,14 +87,12 @@ def applyDamage (i : Nat) (f : Option Bytes) (tok : String) : Option (Option Byt
         | 'z' => if b.length ≥ 1 then some (some (b.set 0 n)) else some (some b)
         | _ => none
 
-def applyFrom (i : Nat) : List (Option Bytes) → List String → Option (List (Option Bytes))
+def applyFrom (alt orig : Nat → Bytes) (i : Nat) : List (Option Bytes) → List String → Option (List (Option Bytes))
   | f :: fs, t :: ts => do
-    let x ← applyDamage i f t
-    let xs ← applyFrom (i + 1) fs ts
+    let x ← applyDamage alt orig i f t
+    let xs ← applyFrom alt orig (i + 1) fs ts
     pure (x :: xs)
   | fs, _ => some fs
-
-def applyAll := applyFrom 0
 
 structure St where
   d : Nat := 1
@@ -109,6 +110,18 @@ def reset (hdr : List String) : St :=
     { d := d, p := p, repair := r == "1", v := if v == "orig" then .orig else .fixed,
       files := List.replicate (d + p) none }
   | _ => {}
+
+/-- body of shard `i` of the blob that differs from the stored one in its first byte -/
+def altBody (st : St) (i : Nat) : Bytes :=
+  let d2 := st.data.set 0 ((st.data.headD 0 + 1) % 256)
+  (((encodeFiles (rsCode st.d st.p) hash d2).getD []).getD i []).drop metaSize
+
+/-- body of shard `i` as written -/
+def origBody (st : St) (i : Nat) : Bytes :=
+  (((encodeFiles (rsCode st.d st.p) hash st.data).getD []).getD i []).drop metaSize
+
+def applyAll (st : St) (dmg : List String) : Option (List (Option Bytes)) :=
+  applyFrom (altBody st) (origBody st) 0 st.files dmg
 
 def showIdx (l : List Nat) : String :=
   if l.isEmpty then "-" else ",".intercalate (l.map toString)
@@ -138,7 +151,7 @@ def step (st : St) (ws : List String) : St × String :=
     let (ok, files) := add C hash data fail st.files
     ({ st with data := data, files := files }, if ok then "ok" else "err")
   | ["get", dmg] =>
-    match applyAll st.files (splitOnComma dmg) with
+    match applyAll st (splitOnComma dmg) with
     | none => (st, "bad-op")
     | some files =>
       let (r, files', written) := getOne st.v C hash st.repair files
@@ -147,7 +160,7 @@ def step (st : St) (ws : List String) : St × String :=
       | .panic => (st', "panic")
       | _ => (st', s!"{classOf st r} rep={showIdx written} files={fileStatus st'}")
   | ["get2", dmg] =>
-    match applyAll st.files (splitOnComma dmg) with
+    match applyAll st (splitOnComma dmg) with
     | none => (st, "bad-op")
     | some files =>
       let (r, files', _) := getOne st.v C hash st.repair files
